@@ -1,6 +1,6 @@
 (* Properties/C15.v — C15: the journal holds one correctly accounted entry per assigned trip in the window.
    Model: Model/Journal.v (journal/journal.go, tied by the "journal" engine on every prefix of random histories x windows). *)
-From GV Require Import Base.Prelude Base.Dec Model.Journal Proofs.JournalProofs.
+From GV Require Import Base.Prelude Base.Dec Model.Journal Proofs.JournalProofs Proofs.HistoryProofs.
 From Coq Require Import Sorted.
 
 (* the output is sorted by UID in the strict bytewise order: sorted and without duplicates *)
@@ -51,6 +51,18 @@ Theorem C15_mark_past : forall tr t,
   jt_uid tr' = jt_uid tr /\ jt_nupd tr' = jt_nupd tr /\ jt_last tr' = jt_last tr /\ jt_assigned tr' = jt_assigned tr /\ jt_start tr' = jt_start tr.
 Proof. exact mark_past_fields. Qed.
 Print Assumptions C15_mark_past.
+
+(* ---- accounting over whole histories, from the events of the UID alone (HistoryProofs.events: its applied updates and the
+   feeds from which it vanished): the number of applied updates, the time of the last one, and the marked-past time - the time
+   of the first feed after the last applied update from which the trip was missing, none if there is no such feed ---- *)
+Theorem C15_accounting_from_events : forall uid feeds tr,
+  alookup uid (st_trips (fold_left apply_feed feeds jinit)) = Some tr -> (jt_nupd tr, jt_last tr, jt_marked tr) = acct (events uid feeds).
+Proof. exact journal_accounting. Qed.
+Print Assumptions C15_accounting_from_events.
+Theorem C15_accounting_spec : forall pre us t post, Forall is_vanish post ->
+  acct (pre ++ EvUpdate us t :: post) = (n_updates (pre ++ EvUpdate us t :: post), t, match post with [] => None | v :: _ => Some (ev_time v) end).
+Proof. exact acct_spec. Qed.
+Print Assumptions C15_accounting_spec.
 
 (* the UID determines (start instant, id suffix) for NYCT-style ids (start >= 1970, suffix not starting with a digit) ... *)
 Theorem C15_uid_injective_partial : forall u1 u2, nyct_like u1 -> nyct_like u2 -> uid_of u1 = uid_of u2 ->
